@@ -272,9 +272,67 @@ def contracts(env):
 
 
 # ---------------------------------------------------------------- bounded end-to-end oracle
+def native_build_reads_everything():
+    """bounded stand-in: BranchCascade.build(repo) must feed EVERY branch line and EVERY tag line that git prints
+    to add_branch / update_versions (the last line included): compared, on small listings, with a cascade fed by
+    hand in the same order."""
+    import itertools
+    from bert_e.workflow.gitwaterflow import branches as B
+
+    def snapshot(c):
+        out = {}
+        for key, bs in c._cascade.items():
+            out[key] = {k.__name__: (None if b is None else (b.name, getattr(b, 'micro', None), getattr(b, 'latest_minor', None),
+                                                             getattr(b, 'hfrev', None)))
+                        for k, b in bs.items()}
+        return out
+    branch_sets = [['development/4.3', 'development/5.1'], ['development/4.3', 'stabilization/4.3.18', 'development/10'],
+                   ['hotfix/4.2.17', 'development/4.3']]
+    tag_sets = [[], ['4.3.16'], ['4.3.16', '4.3.17'], ['4.2.17.0', '4.2.17.1', '4.3.16'], ['4.3.17', 'v5.1.3'], ['5.1.3', '4.3.17']]
+    problems, cases = [], 0
+    for branches, tags in itertools.product(branch_sets, tag_sets):
+        cases += 1
+
+        class Repo:
+            def cmd(self, command, *a, **k):
+                if command.startswith('git branch'):
+                    pref = command.split('*')[1].split('/')[0]
+                    lines = ['  remotes/origin/' + b for b in branches if b.startswith(pref + '/')]
+                    return ''.join(l + '\n' for l in lines)
+                if command == 'git tag':
+                    return ''.join(t + '\n' for t in tags)
+                raise AssertionError(command)
+        try:
+            a = B.BranchCascade()
+            a.build(Repo())
+            b = B.BranchCascade()
+            seen = []
+            for pref in ('development', 'stabilization', 'hotfix'):
+                for name in branches:
+                    if name.startswith(pref + '/') and name not in seen:
+                        seen.append(name)
+            for name in set(seen):
+                b.add_branch(B.branch_factory(Repo(), name), None)
+            for t in tags:
+                b.update_versions(t)
+            b._update_major_versions()
+            if snapshot(a) != snapshot(b):
+                problems.append({'branches': branches, 'tags': tags, 'build': str(snapshot(a)), 'by_hand': str(snapshot(b))})
+        except Exception as e:  # noqa
+            problems.append({'branches': branches, 'tags': tags, 'error': repr(e)})
+    return {'name': 'native_build_reads_everything', 'scope': '%d branch listings x %d tag listings' % (len(branch_sets), len(tag_sets)),
+            'cases': cases, 'distinct_nontrivial': cases, 'ok': not problems, 'problems': problems[:3]}
+
+
 def extra(rep, tier, seed, budget):
     from pyvc.cli import write_replay
     from bounded import c09_cascade
+    nb = native_build_reads_everything()
+    rep.bounded.append(nb)
+    if not nb['ok']:
+        path = write_replay(rep.pid, 'bounded:cascade_build', nb)
+        rep.violations.append({'key': 'bounded:cascade_build', 'what': 'BranchCascade.build ignores part of what git lists: %s'
+                               % str(nb['problems'][0])[:200], 'replay': path, 'input': nb['problems'][0], 'noinput': False})
     res = c09_cascade.run(tier, seed)
 
     def claimed(f):
